@@ -421,7 +421,10 @@ def run_c14_c(case):
     real_conc = lib.system.concurrent
     lib.simulation.random = real_random
     try:
-        ref = lib.System.simulate_multiple_times(multi_sim, n, 0, mspec, horizon)
+        # the extra arguments of the simulation function travel positionally or by keyword
+        xa, xk = ((mspec,), {'horizon': horizon}) if case.get('kw') == 'one' else \
+                 ((), {'mspec': mspec, 'horizon': horizon}) if case.get('kw') == 'all' else ((mspec, horizon), {})
+        ref = lib.System.simulate_multiple_times(multi_sim, n, 0, *xa, **xk)
         if len(ref) != n:
             raise Violation('C14.c', f'max_processes=0 returned {len(ref)} systems for {n} simulations', extra={'kind': 'count'})
         ref_fp = [sys_fp(s) for s in ref]
@@ -437,7 +440,7 @@ def run_c14_c(case):
             SimPool.log = []
             lib.system.concurrent = _FakeConcurrent
             try:
-                got = lib.System.simulate_multiple_times(multi_sim, n, p, mspec, horizon)
+                got = lib.System.simulate_multiple_times(multi_sim, n, p, *xa, **xk)
             finally:
                 lib.system.concurrent = real_conc
             stats['multi_runs'] += 1
@@ -446,7 +449,7 @@ def run_c14_c(case):
                 stats['reach']['worker_reused'] = stats['reach'].get('worker_reused', 0) + 1
             check_multi(ref_fp, got, n, f'max_processes={p} (simulated pool)')
         if case.get('real_pool'):
-            got = lib.System.simulate_multiple_times(multi_sim, n, case['real_pool'], mspec, horizon)
+            got = lib.System.simulate_multiple_times(multi_sim, n, case['real_pool'], *xa, **xk)
             stats['real_pool_runs'] += 1
             check_multi(ref_fp, got, n, f'max_processes={case["real_pool"]} (real process pool)')
     except Violation as v:
@@ -512,7 +515,14 @@ def gen_c14_c(rng, real_pool=False):
     n = rng.choice((1, 2, 3, 5, 8)) if rng.random() > 0.03 else rng.choice((33, 40))
     procs = rng.sample([1, 2, 3, n, None], rng.choice((2, 3)))
     case = {'engine': 'lifesim_multi', 'mspec': mspec, 'horizon': rng.choice((5, 12, 30)), 'n': n, 'procs': procs,
-            'pool_seed': rng.randrange(10 ** 6), 'id_offset': rng.choice((0, 40))}
+            'pool_seed': rng.randrange(10 ** 6), 'id_offset': rng.choice((0, 40)),
+            'kw': rng.choice((None, None, 'one', 'all'))}
+    if rng.random() < 0.04:
+        # a long run (a few hundred events per device) for few simulations: what crosses the process boundary must not
+        # grow with the history of the run
+        case['horizon'] = 160
+        case['n'] = min(case['n'], 2)
+        case['procs'] = [q if q != n else case['n'] for q in case['procs'][:2]]
     if real_pool:
         case['real_pool'] = rng.choice((1, 2, 3))
     return case
